@@ -45,7 +45,7 @@ def _build(rng):
     prof = progen.Profile(max_stmts=12, reloc_ram=False, big_incbin=rng.random() < 0.25, defines=defines, org_weight=8)
     case = progen.generate(rng, prof, rom=rom)
     case["defines"] = defines
-    case["define_forms"] = [rng.choice(["d", "x", "X", "b"]) for _ in defines]  # decimal, 0x lower / UPPER-case digits, 0b
+    case["define_forms"] = [rng.choice(["d", "x", "X", "b", "d", "x", "z", "zx"]) for _ in defines]  # decimal, 0x lower / UPPER-case digits, 0b, zero-padded
     case["sub"] = rng.random() < 0.1
     if defines and rng.random() < 0.5:
         # an inner scope (block, named scope, macro body, loop body) defines a name of its own that coincides with a -D name:
@@ -165,7 +165,8 @@ def run_case(case) -> Outcome:
     nblocks = len(ref["blocks"])
     dargs = []
     if defines:
-        fmt_ = {"d": lambda v: str(v), "x": lambda v: f"0x{v:x}", "X": lambda v: f"0x{v:X}", "b": lambda v: f"0b{v:b}"}
+        fmt_ = {"d": lambda v: str(v), "x": lambda v: f"0x{v:x}", "X": lambda v: f"0x{v:X}", "b": lambda v: f"0b{v:b}",
+                "z": lambda v: f"{v:08d}", "zx": lambda v: f"0x{v:08x}"}
         dargs = ["-D"] + [f"{k}={fmt_[f](v)}" for (k, v), f in zip(defines.items(), case.get("define_forms") or ["d"] * len(defines))]
 
     def check_ips(tag, blob, copier, sub):
@@ -236,7 +237,7 @@ def run_case(case) -> Outcome:
                 else:
                     got = collections.Counter(syms)
                     exp = collections.Counter((n_, v_ & 0xFFFFFF) for n_, v_ in model.labels_outside_loops)
-                    names_in_loops = {n_ for n_, _ in model.labels} - {n_ for n_, _ in model.labels_outside_loops}
+                    names_in_loops = set(model.names_under_loops)
                     for (name, v), cnt in exp.items():
                         if name in names_in_loops:
                             continue  # the same name is also defined inside a loop: those entries may or may not be listed
